@@ -32,7 +32,7 @@ from pyrtma.data_logger.data_collection import DataCollection
 from pyrtma.data_logger.data_formatter import get_formatter
 from pyrtma.data_logger.data_set import DataSet
 from pyrtma.data_logger.metadata import LoggingMetadata
-from pyrtma.header import MessageHeader
+from pyrtma.header import MessageHeader, TimeCodeMessageHeader
 from pyrtma.message import Message
 from pyrtma.utils.quicklogger_reader import QLFileHeader, QLReader
 
@@ -138,8 +138,9 @@ N_SUBSET_TYPES = 5
 HDR_SIZE = MessageHeader().size
 
 
-def make_msg(mid: int, ti: int) -> Message:
-    """Message number `mid` (unique, = header.msg_count) of type TYPES[ti], contents derived from mid."""
+def make_msg(mid: int, ti: int, timecode: bool = False) -> Message:
+    """Message number `mid` (unique, = header.msg_count) of type TYPES[ti], contents derived from mid; with the
+    header layout a Client(timecode=True) delivers when `timecode`."""
     cls = TYPES[ti]
     data = cls()
     if cls is cd.MDF_MODULE_READY:
@@ -154,7 +155,10 @@ def make_msg(mid: int, ti: int) -> Message:
         data.elapsed_time = mid / 8.0
         data.is_recording = 1
         data.is_paused = mid % 2
-    h = MessageHeader()
+    h = TimeCodeMessageHeader() if timecode else MessageHeader()
+    if timecode:
+        h.utc_seconds = 1_700_000_000 + mid
+        h.utc_fraction = 1000 + mid
     h.msg_type = cls.type_id
     h.msg_count = mid
     h.send_time = 1000.0 + mid * 0.125
@@ -177,7 +181,7 @@ def frame(msg: Message) -> bytes:
 
 class CaseInfo:
     __slots__ = ("choices", "tape", "cycles", "preempt", "timeouts", "n_sub_files", "n_expected", "paused_msgs",
-                 "log", "restarts", "pruned")
+                 "log", "restarts", "pruned", "direct_triggers")
 
     def __init__(self):
         self.choices = []
@@ -191,10 +195,25 @@ class CaseInfo:
         self.log = []
         self.restarts = 0
         self.pruned = False
+        self.direct_triggers = 0
 
 
-def _trace(datasets, history, tape):
-    return {"datasets": datasets, "history": [list(h) for h in history] + [["stop"]], "tape": list(tape)}
+DEFAULT_OPTS = {"timecode": False, "threaded": True}
+
+
+def _opts(o) -> dict:
+    """timecode: messages carry TimeCodeMessageHeader; threaded: DataCollection(use_thread=...)."""
+    d = dict(DEFAULT_OPTS)
+    d.update(o or {})
+    return d
+
+
+def _trace(datasets, history, tape, opts=None):
+    tr = {"datasets": datasets, "history": [list(h) for h in history] + [["stop"]], "tape": list(tape)}
+    o = _opts(opts)
+    if o != DEFAULT_OPTS:
+        tr["opts"] = o
+    return tr
 
 
 def _exc_key(e: BaseException) -> str:
@@ -250,13 +269,14 @@ class _Corrupt(Exception):
     pass
 
 
-def _read_raw(path):
+def _read_raw(path, hdr_cls=MessageHeader):
+    HDR_SIZE = hdr_cls().size  # noqa: N806
     b = open(path, "rb").read()
     pos, frames = 0, []
     while pos < len(b):
         if pos + HDR_SIZE > len(b):
             raise _Corrupt(f"{os.path.basename(path)}: {len(b) - pos} trailing bytes are not a whole header")
-        h = MessageHeader.from_buffer_copy(b[pos: pos + HDR_SIZE])
+        h = hdr_cls.from_buffer_copy(b[pos: pos + HDR_SIZE])
         n = h.num_data_bytes
         if n < 0 or pos + HDR_SIZE + n > len(b):
             raise _Corrupt(f"{os.path.basename(path)}: frame at byte {pos} announces {n} data bytes, file has "
@@ -280,7 +300,8 @@ def _read_json(path):
     return frames
 
 
-def _read_ql(path, defs_path):
+def _read_ql(path, defs_path, hdr_cls=MessageHeader):
+    HDR_SIZE = hdr_cls().size  # noqa: N806
     r = QLReader()
     before = list(sys.path)
     try:
@@ -315,15 +336,20 @@ def _read_ql(path, defs_path):
 READERS = {"raw": _read_raw, "json": _read_json}
 
 
-def run_case(datasets, history, tape, want_log=False, sleep_sets=False, max_after=None) -> CaseInfo:
+def run_case(datasets, history, tape, want_log=False, sleep_sets=False, max_after=None, opts=None) -> CaseInfo:
     """Execute one case; pure function of its arguments.  Raises Violation when C17 does not hold on it.
 
     datasets: [{"fmt": raw|json|quicklogger, "types": "ALL" | [indices into TYPES], "subdiv": 0 | seconds}]
-    history:  [["u", type index | -1 (= update(None)), dt] | ["p"] | ["r"] | ["restart", dt]]; stop() is always
+    history:  [["u", type index | -1 (= update(None)), dt] | ["p"] | ["r"] | ["t"] (= trigger_write()) |
+              ["restart", dt]]; stop() is always
               appended; restart = stop(), metadata update, start() of the next recording of the same collection
     tape:     schedule tape (see vlib/sched.py)
+    opts:     see _opts()
     """
     info = CaseInfo()
+    opts = _opts(opts)
+    timecode = bool(opts["timecode"])
+    hdr_cls = TimeCodeMessageHeader if timecode else MessageHeader
     tmp = tempfile.mkdtemp(prefix="c17-", dir="/tmp")
     sched = Scheduler(tape, sleep_sets=sleep_sets, max_after_switches=max_after)
     clock = VirtualClock(sched)
@@ -360,12 +386,14 @@ def run_case(datasets, history, tape, want_log=False, sleep_sets=False, max_afte
                         if fmt == "quicklogger":
                             if not os.path.exists(defs_path):
                                 open(defs_path, "w").close()
-                            got.extend(_read_ql(p, defs_path))
+                            got.extend(_read_ql(p, defs_path, hdr_cls))
                         else:
-                            got.extend(READERS[fmt](p))
+                            got.extend(_read_raw(p, hdr_cls) if fmt == "raw" else _read_json(p))
                 except _Corrupt as c:
-                    return Violation(f"corrupt/{fmt}", f"{tag}: {c}", None)
-                v = _compare(tag, fmt, got, exp_run[i], dontcare[i], frames, len(files), _dropped_stage(sched.log))
+                    return Violation(f"corrupt/{fmt}" + ("/timecode-header" if timecode else ""), f"{tag}: {c}"
+                                     + ("; the messages carry TimeCodeMessageHeader" if timecode else ""), None)
+                v = _compare(tag, fmt, got, exp_run[i], dontcare[i], frames, len(files), _dropped_stage(sched.log),
+                             _restaged(sched.log))
                 if v is not None:
                     return v
             return None
@@ -374,7 +402,10 @@ def run_case(datasets, history, tape, want_log=False, sleep_sets=False, max_afte
         where = "setup"
         try:
             md.update(json.dumps({"run": 0}))
-            coll = DataCollection("c17", tmp, "rec", md)
+            if opts["threaded"]:
+                coll = DataCollection("c17", tmp, "rec", md)
+            else:
+                coll = DataCollection("c17", tmp, "rec", md, use_thread=False)
             coll.write_to_disk.name = "write_to_disk"
             coll.write_finished.name = "write_finished"
             for i, d in enumerate(datasets):
@@ -402,7 +433,7 @@ def run_case(datasets, history, tape, want_log=False, sleep_sets=False, max_afte
                     msg = None
                     if ti >= 0:
                         mid += 1
-                        msg = make_msg(mid, ti)
+                        msg = make_msg(mid, ti, timecode)
                         frames[mid] = frame(msg)
                         for i, d in enumerate(datasets):
                             if d["types"] == "ALL" or ti in d["types"]:
@@ -419,6 +450,11 @@ def run_case(datasets, history, tape, want_log=False, sleep_sets=False, max_afte
                     where = "resume"
                     coll.resume()
                     paused = False
+                elif op[0] == "t":
+                    # the recording thread asks for a flush itself (public method, no deadline involved)
+                    where = "trigger_write"
+                    coll.trigger_write()
+                    info.direct_triggers += 1
                 elif op[0] == "restart":
                     # stop this recording, new metadata (as DATA_LOGGER_METADATA_UPDATE does), start the next one
                     where = "stop"
@@ -506,7 +542,7 @@ def run_case(datasets, history, tape, want_log=False, sleep_sets=False, max_afte
             dc_mod.threading, dc_mod.time = saved
             shutil.rmtree(tmp, ignore_errors=True)
     if pending is not None:
-        pending.trace = _trace(datasets, history, info.tape)
+        pending.trace = _trace(datasets, history, info.tape, opts)
         pending.choices = info.choices
         raise pending
     return info
@@ -529,7 +565,13 @@ def _dropped_stage(log) -> bool:
     return False
 
 
-def _compare(tag, fmt, got, exp, dontcare, frames, nfiles, dropped_stage):
+def _restaged(log) -> bool:
+    """Did the recording thread raise write_to_disk while it was still raised (a second trigger_write() staged over a
+    buffer the writer had not taken yet)?  Names the bucket of a loss only."""
+    return any(tid == 0 and kind == "set" and name == "write_to_disk" and res for tid, kind, name, res in log)
+
+
+def _compare(tag, fmt, got, exp, dontcare, frames, nfiles, dropped_stage, restaged=False):
     """got: [(id, frame bytes)] read back; exp: ids that must be there in this order."""
     for mid, fb in got:
         if mid not in frames or frames[mid] != fb:
@@ -547,10 +589,13 @@ def _compare(tag, fmt, got, exp, dontcare, frames, nfiles, dropped_stage):
     lost = [m for m in exp if m not in seen]
     dup = [m for m in exp if seen.get(m, 0) > 1]
     if lost:
-        key = "lost/staged-buffer-never-written" if dropped_stage else f"lost/{fmt}"
+        key = ("lost/trigger-write-while-write-pending" if restaged else
+               "lost/staged-buffer-never-written" if dropped_stage else f"lost/{fmt}")
         return Violation(key, f"{tag}, {nfiles} file(s): {len(lost)} of {len(exp)} selected messages handed over while "
                          f"recording and not paused are not in the output: ids {lost[:8]}; read back {ids[:12]}"
-                         + ("; a write request was cleared before the writer thread had served it (stop() did not "
+                         + ("; trigger_write() staged a new buffer while the previous write request was still pending"
+                            if restaged else
+                            "; a write request was cleared before the writer thread had served it (stop() did not "
                             "wait for the writer's cycle)" if dropped_stage else ""), None)
     if dup:
         return Violation(f"duplicate/{fmt}", f"{tag}: messages {dup[:6]} were written more than once; read "
